@@ -89,9 +89,10 @@ Fixpoint splitlines_aux (s : text) (cur : text) (* reversed current line *) : li
   | [] => match cur with [] => [] | _ => [rev cur] end
   | c :: r =>
       if is_linebreak c then
-        match c, r with
-        | 13%N, 10%N :: r' => rev cur :: splitlines_aux r' []
-        | _, _ => rev cur :: splitlines_aux r []
+        match r with
+        | c2 :: r' => if N.eqb c 13 && N.eqb c2 10 then rev cur :: splitlines_aux r' []     (* \r\n is one boundary *)
+                      else rev cur :: splitlines_aux r []
+        | [] => rev cur :: splitlines_aux r []
         end
       else splitlines_aux r (c :: cur)
   end.
@@ -109,14 +110,11 @@ Definition dot : cp := 46%N.
 
 (* helpers/string.py: should_split_on_colon *)
 Definition should_split_on_colon (value : text) : bool :=
-  match value with
-  | _ :: 58%N :: 92%N :: _ => false                         (* len >= 3, value[1] == ":" and value[2] == "\\" *)
-  | _ => match value, rev value with
-         | 91%N :: _ :: _, 93%N :: _ => false                (* len >= 2, "[" ... "]" *)
-         | 123%N :: _ :: _, 125%N :: _ => false              (* len >= 2, "{" ... "}" *)
-         | _, _ => true
-         end
-  end.
+  let n := List.length value in
+  if (3 <=? n) && N.eqb (nth 1 value 0%N) 58 && N.eqb (nth 2 value 0%N) 92 then false     (* value[1] == ":" and value[2] == "\\" *)
+  else if (2 <=? n) && N.eqb (nth 0 value 0%N) 91 && N.eqb (last value 0%N) 93 then false  (* "[" ... "]" *)
+  else if (2 <=? n) && N.eqb (nth 0 value 0%N) 123 && N.eqb (last value 0%N) 125 then false (* "{" ... "}" *)
+  else true.
 
 (* helpers/string.py: split_colon_separated_string.  The `while ":" in leftover` loop consumes at least the colon in each
    round; fuel = length of the input + 1 is never exhausted (None = out of fuel). Returns (config_path[:-1], config_path[-1]). *)
